@@ -87,6 +87,10 @@ pub enum Policy {
     Pct { prio: Vec<u8>, change: Vec<u32> },
     /// follow a recorded trace (replay)
     Trace(Vec<u8>),
+    /// the non-preemptive schedule (stay on the running thread; when it yields or blocks take the
+    /// next thread in cyclic order) except at the listed decision numbers (1-based), where the
+    /// `alt`-th other candidate is chosen instead
+    Deviate(Vec<(u32, u8)>),
 }
 
 #[derive(Clone, Debug, serde::Serialize, serde::Deserialize, PartialEq, Eq)]
@@ -453,6 +457,24 @@ impl State {
                     .iter()
                     .max_by_key(|i| (self.pct_prio[**i], usize::MAX - **i))
                     .unwrap()
+            }
+            Policy::Deviate(devs) => {
+                let default = if can_stay {
+                    me
+                } else {
+                    *pool.iter().find(|i| **i > me).unwrap_or(&pool[0])
+                };
+                match devs.iter().find(|(d, _)| *d as u64 == self.decisions) {
+                    Some((_, alt)) => {
+                        let others: Vec<usize> = pool.iter().copied().filter(|i| *i != default).collect();
+                        if others.is_empty() {
+                            default
+                        } else {
+                            others[(*alt as usize) % others.len()]
+                        }
+                    }
+                    None => default,
+                }
             }
             Policy::Trace(tr) => {
                 let want = tr.get((self.decisions - 1) as usize).copied();
